@@ -124,7 +124,34 @@ def menu(inst):
 
 def apply(inst, op):
     """-> description of a violation or None"""
-    if op[0] == "serialize":
+    if op[0] in ("write_shared", "shared_add", "write_fresh"):
+        # packets have a second serialization entry point, obj.write(writer): into a writer that is shared with other
+        # writes (a batch), with data appended to that writer in between, and into fresh writers
+        W = loader.lib("eolib.data.eo_writer").EoWriter
+        if op[0] == "write_fresh":
+            w = W()
+        else:
+            if getattr(inst, "shared", None) is None:
+                inst.shared = W()
+                inst.shared_model = b""
+            w = inst.shared
+        try:
+            if op[0] == "shared_add":
+                w.add_char(7)
+                inst.shared_model += b"\x08"
+                return None
+            before = bytes(w.to_bytearray())
+            inst.obj.write(w)
+            after = bytes(w.to_bytearray())
+        except Exception as e:  # noqa: BLE001
+            return f"{op[0]} raised {type(e).__name__}: {e}"
+        if after[: len(before)] != before or after[len(before):] != inst.first:
+            return f"write() into a writer holding {before.hex() or 'nothing'} appended {after[len(before):].hex()} (writer now {after.hex()}), the first serialization was {inst.first.hex()}"
+        if op[0] == "write_shared":
+            if before != inst.shared_model:
+                return f"the shared writer held {before.hex()} before this write, expected {inst.shared_model.hex()}"
+            inst.shared_model += inst.first
+    elif op[0] == "serialize":
         got = real_serialize(inst.ld.cls, inst.obj, False)
         if got[0] != "bytes" or got[1] != inst.first:
             shown = got[1].hex() if got[0] == "bytes" else got[1]
@@ -298,6 +325,10 @@ class Judge:
                     hists += [(a, b) for a in ops for b in ops if a[0] == "mutate_source" and b[0] == "mutate_source"]
                 if depth >= 3:
                     hists += [(a, b, ("serialize",)) for a in ops for b in ops if a[0] != "serialize" and b[0] != "serialize"][:400]
+                if p.kind == "packet" and hasattr(probe.obj, "write"):
+                    wops = [("write_shared",), ("shared_add",), ("write_fresh",), ("serialize",)]
+                    for d in range(1, 4 if ctx.tier == "quick" else 5):
+                        hists += [h for h in itertools.product(wops, repeat=d) if any(o[0].startswith("write") for o in h)]
                 for hist in hists:
                     what = run_history(ld, ad, val, deserialized, hist)
                     if what == "skip":
@@ -326,7 +357,7 @@ def run(tier, seed):
         "rule": "per valid program: EVERY value of the domain gets the history (append to every caller-side list, serialize) on a constructed and a deserialized instance; then the first and the 2/5 richest values (most y-diaeresis strings / array elements / present optionals) x {constructed, deserialized} instance x every history of length 1 over the "
         "menu (serialize; setattr of every public name of the instance and of every nested struct/case-data instance with "
         "same/other/None; append/clear/setitem on each caller-side list), every length-2 history pairing each op with "
-        "serialize in both orders and every pair of caller-side mutations (+ triples ending in serialize, thorough); each "
+        "serialize in both orders and every pair of caller-side mutations (+ triples ending in serialize, thorough); for packets every history of up to 3 (thorough 4) steps over {obj.write(shared writer), append to the shared writer, obj.write(fresh writer), serialize}; each "
         "(program, value, instance kind, history) is a distinct case run on a fresh instance",
         "samples": samples[:3],
     }
